@@ -3,7 +3,7 @@
    the page-level queries, size_hint and the allocation request of get_pages. *)
 From LV Require Import Base.Bytes Base.Sx Model.Obj Model.DocQ Model.PageTree Model.Utf Model.Query
   Gen.Consts Gen.QueryC.
-From LV Require Model.Toc.
+From LV Require Model.Toc Proofs.PageTreeProofs.
 
 (* a call returns: a value or an error -- not a panic, not out of fuel *)
 Definition returns {A} (o : out A) : Prop :=
@@ -207,8 +207,16 @@ Proof.
     destruct (N.of_nat (length st) <? PAGE_TREE_DEPTH_LIMIT)%N; apply H.
 Qed.
 
-Lemma size_hint_le m limit kids stack : (size_hint m limit kids stack <= N.of_nat limit)%N.
-Proof. unfold size_hint. apply N.le_min_r. Qed.
+Lemma size_hint_le m limit kids stack :
+  (fst (size_hint m limit kids stack) <= N.of_nat limit)%N /\ snd (size_hint m limit kids stack) = N.of_nat limit.
+Proof. unfold size_hint. cbn [fst snd]. split; [apply N.le_min_r | reflexivity]. Qed.
+
+(* the promised upper bound is one: no more than [limit] ids are ever yielded from a state *)
+Lemma size_hint_upper_sound m limit kids stack :
+  (N.of_nat (length (iter limit m kids stack)) <= snd (size_hint m limit kids stack))%N.
+Proof.
+  destruct (Proofs.PageTreeProofs.iter_total m limit kids stack) as [H _]. unfold size_hint. cbn [snd]. lia.
+Qed.
 
 Lemma sat_add_le a b : (sat_add a b <= a + b)%N.
 Proof. unfold sat_add. apply N.le_min_l. Qed.
@@ -222,20 +230,22 @@ Proof.
   destruct (iter_next (length (d_objects d)) (d_objects d) (root_kids d) []) as [y [[l' ks'] st']].
   cbn [fst snd] in Hl.
   destruct y; [|lia].
-  pose proof (size_hint_le (d_objects d) l' ks' st') as Hs.
-  pose proof (sat_add_le (size_hint (d_objects d) l' ks' st') 1) as Ha.
+  destruct (size_hint_le (d_objects d) l' ks' st') as [Hs _].
+  pose proof (sat_add_le (fst (size_hint (d_objects d) l' ks' st')) 1) as Ha.
   lia.
 Qed.
 
 Lemma hint_probe_bounded d :
   let '(h0, _, h1) := hint_probe d in
-  (h0 <= N.of_nat (length (d_objects d)))%N /\ (h1 <= N.of_nat (length (d_objects d)))%N.
+  (fst h0 <= snd h0 <= N.of_nat (length (d_objects d)))%N /\ (fst h1 <= snd h1 <= N.of_nat (length (d_objects d)))%N.
 Proof.
   unfold hint_probe.
   pose proof (iter_next_limit (d_objects d) (length (d_objects d)) (root_kids d) []) as Hl.
   destruct (iter_next (length (d_objects d)) (d_objects d) (root_kids d) []) as [y [[l' ks'] st']].
-  cbn [fst snd] in Hl. split; [apply size_hint_le|].
-  pose proof (size_hint_le (d_objects d) l' ks' st'). lia.
+  cbn [fst snd] in Hl.
+  destruct (size_hint_le (d_objects d) (length (d_objects d)) (root_kids d) []) as [A B].
+  destruct (size_hint_le (d_objects d) l' ks' st') as [C D].
+  rewrite B, D. lia.
 Qed.
 
 Lemma iter_nil m limit : iter limit m [] [] = [].
@@ -257,3 +267,13 @@ Proof.
   destruct (iter_next (length (d_objects d)) (d_objects d) (root_kids d) []) as [[y|] [[l' ks'] st']];
     reflexivity.
 Qed.
+
+(* before the first next() the promised upper bound covers everything page_iter yields *)
+Lemma hint_upper_sound d :
+  (N.of_nat (length (page_iter d)) <= snd (fst (fst (hint_probe d))))%N.
+Proof.
+  unfold hint_probe.
+  destruct (iter_next (length (d_objects d)) (d_objects d) (root_kids d) []) as [y [[l' ks'] st']].
+  cbn [fst snd]. rewrite page_iter_root. apply size_hint_upper_sound.
+Qed.
+
